@@ -271,7 +271,7 @@ func (h *c39) keygenToGo(i int64, r *rand.Rand) {
 	if mode != "" {
 		args = append(args, "-a", fmt.Sprint(rounds))
 	}
-	if _, se, err := ext.Run(nil, nil, "ssh-keygen", args...); err != nil {
+	if _, se, err := runTool("ssh-keygen", args...); err != nil {
 		m.Count("A_keygen_failed", 1)
 		m.Note("ssh-keygen failed to generate " + kt.tag + "/" + mode + ": " + strings.TrimSpace(se))
 		return
@@ -657,7 +657,7 @@ func (h *c39) goToKeygen(i int64, r *rand.Rand) {
 		} else {
 			args = append(args, "-N", np, "-Z", cipher)
 		}
-		if _, se, err := ext.Run(nil, nil, "ssh-keygen", args...); err != nil {
+		if _, se, err := runTool("ssh-keygen", args...); err != nil {
 			wit["ssh_keygen_stderr"] = strings.TrimSpace(se)
 			m.Violation("go-written-key-rejected-by-ssh-keygen-p:"+strings.TrimSuffix(tag, "-ptr"), wit)
 		} else if p2, err := os.ReadFile(file); err == nil {
@@ -808,7 +808,7 @@ func (h *c39) inconsistent(i int64, r *rand.Rand) {
 		}
 	}
 	// ssh-keygen's opinion on a sample (evidence; for controls an encoder/KDF cross-check)
-	if (i/nc)%2 == 0 && (b.expect == expControl || i/nc < 6) {
+	if (i/nc)%2 == 0 && (b.expect == expControl || i/nc < 6) && cls != "kdf-header" { // ssh-keygen does not cap bcrypt rounds
 		file := filepath.Join(h.dir, fmt.Sprintf("c%d", i))
 		if writeKeyFile(file, pemb) == nil {
 			got, _, _, err := keygenY(file, enc.pass)
